@@ -148,6 +148,7 @@ PROPS = {
                   K("tokenize.py::Token.__getitem__"), K("tokenize.py::Token.__add__"),
                   K("template.py::BaseTemplate.write@str"),
                   U('pyvc.frames', 'tag_nodes_frame', 'visit_element.tag_node_fields'),
+                  U('pyvc.regexlang', 'attr_name_unit', 'attr_name.layers_agree'),
                   U('bounded.units', 'verbatim', 'B-VERBATIM'), U('bounded.units', 'attrs', 'B-ATTR')],
         "not_decided": ["match_tag field contracts, visit_Start / visit_Attribute(static) emitters (bounded only)",
                         "CR/CRLF normalisation in PageTemplate.parse (the XML/HTML decision it depends on is under contract: BaseTemplate.write)",
